@@ -144,7 +144,7 @@ CHECKS = {
 	'C19': {
 		'category': 'model_checking',
 		'technique': 'bounded symbolic case analysis (CrossHair + z3) over operation histories of the real DI/LazyDI containers against a reference model; observation sweep after every history',
-		'text': 'Every history of 3 (quick) / 4 (thorough) operations over 44 operation codes (bind-or-rebind, unbind, resolve, invoke with two argument vectors on three targets, combine in both directions; three containers, two symbols, lazy by-name and direct definitions) '
+		'text': 'Every history of 3 (quick) / 4 (thorough) operations over 48 operation codes (bind-or-rebind, unbind, resolve, invoke with two argument vectors on three targets and of two same-named closures, combine in both directions; three containers, two symbols, lazy by-name and direct definitions) '
 			'is executed on the real containers and on a reference model stating the property\'s sentences; after each step can_resolve agrees, at the end every symbol is resolved twice on every container and instance identity, instance type and ValueErrors are compared.',
 		'design_ref': 'DESIGN.md section 2, C19',
 		'note': 'Finite case split (F): operation codes are symbolic ints decoded by comparison; the real code then runs natively. Universe and history length bounded as stated. ' + NOTE_COMMON,
